@@ -13,6 +13,7 @@ Definition dispatch (cmd : string) (input : string) : string :=
   | "codegen-x86" => run_codegen_x86 input
   | "stages" => run_stages input
   | "codegen-a64" => run_codegen_a64 input
+  | "heap-a64" => run_heap_a64 input
   | "fun2core" => run_fun2core input
   | "rt" => run_rt input
   | _ => "BAD - unknown command " ++ cmd ++ nl
